@@ -36,6 +36,10 @@ from .manifest import Manifest
 from .options import ValidatorOptions
 
 class DashValidator(DashElement):
+    # time to wait before reloading a live manifest that has no
+    # MPD@minimumUpdatePeriod attribute
+    DEFAULT_UPDATE_PERIOD = datetime.timedelta(seconds=2)
+
     baseurl: str
     http_client: HttpClient
     history: list[ValidationHistory]
@@ -92,7 +96,7 @@ class DashValidator(DashElement):
         if self.mode is None:
             if self.xml.get("type") == "dynamic":
                 self.mode = 'live'
-            elif "urn:mpeg:dash:profile:isoff-on-demand:2011" in self.xml.get('profiles'):
+            elif "urn:mpeg:dash:profile:isoff-on-demand:2011" in self.xml.get('profiles', ''):
                 self.mode = 'odvod'
             else:
                 self.mode = 'vod'
@@ -242,12 +246,13 @@ class DashValidator(DashElement):
             self.attrs.check_equal(
                 self.prev_manifest.availabilityStartTime, self.manifest.availabilityStartTime,
                 template=r'availabilityStartTime has changed from {} to {}')
-            age = self.manifest.publishTime - self.prev_manifest.publishTime
-            fmt = (r'Manifest should have updated by now. minimumUpdatePeriod is {0} but ' +
-                   r'manifest has not been updated for {1} seconds')
-            self.attrs.check_less_than(
-                age, 3 * self.manifest.minimumUpdatePeriod,
-                fmt.format(self.manifest.minimumUpdatePeriod, age.total_seconds()))
+            if self.manifest.minimumUpdatePeriod is not None:
+                age = self.manifest.publishTime - self.prev_manifest.publishTime
+                fmt = (r'Manifest should have updated by now. minimumUpdatePeriod is {0} but ' +
+                       r'manifest has not been updated for {1} seconds')
+                self.attrs.check_less_than(
+                    age, 3 * self.manifest.minimumUpdatePeriod,
+                    fmt.format(self.manifest.minimumUpdatePeriod, age.total_seconds()))
         await self.manifest.validate()
         if self.options.save and self.options.prefix:
             kids = set()
@@ -306,7 +311,12 @@ class DashValidator(DashElement):
             return
         if not self.elt.check_not_none(self.manifest):
             return
-        next_refresh = self.manifest.publishTime + self.manifest.minimumUpdatePeriod
+        if self.manifest.minimumUpdatePeriod is None:
+            # MPD@minimumUpdatePeriod is optional. When it is absent no MPD
+            # update is announced, but new segments keep becoming available.
+            next_refresh = self.manifest.now() + self.DEFAULT_UPDATE_PERIOD
+        else:
+            next_refresh = self.manifest.publishTime + self.manifest.minimumUpdatePeriod
         self.log.debug(
             'publishTime=%s minimumUpdatePeriod=%s nextUpdate=%s',
             self.manifest.publishTime, self.manifest.minimumUpdatePeriod,
